@@ -1,8 +1,8 @@
-\* C17 scenarios (thorough): every tree over 5 candidate paths x 14 link targets x 3 mount modes x 3 secret modes
+\* C17 scenarios (thorough): every tree over 5 candidate paths x 18 link targets x 7 mount configurations x 4 secret roots
 SPECIFICATION Spec
 CONSTANTS
-  TargetIds = {1, 3, 4, 5, 7, 8, 9, 10, 11, 12, 13, 14, 15, 16}
-  MountModes = {"none", "outside", "beneath"}
-  SecretModes = {"none", "outside", "beneath"}
+  TargetIds = {1, 3, 4, 5, 7, 8, 9, 10, 11, 12, 13, 14, 15, 16, 17, 18, 19, 20}
+  MountCfgIds = {1, 2, 3, 4, 5, 6, 7}
+  SecretIds = {1, 2, 3, 4}
 INVARIANTS Emit
 CHECK_DEADLOCK FALSE
